@@ -5,7 +5,7 @@ Import ListNotations.
 Open Scope N_scope.
 
 (* 京都 | 1 | , | 0 | 0 | 0 | ア | イウ(OOV) | に   -- classes: KANJI=4, NUMERIC=16, SYMBOL=8, KATAKANA=128, HIRAGANA=64 *)
-Definition w (b e : nat) (s : list N) (p : N) (o : bool) (c : N) : node := mkN b e b e s [] [] [] p o c c.
+Definition w (b e : nat) (s : list N) (p : N) (o : bool) (c : N) : node := mkN b e b e s [] [] [] 0 p o c c.
 Definition ex_path : list node :=
   [ w 0 2 [20140; 37117] 3 false 4; w 2 3 [49] 7 false 16; w 3 4 [44] 15 false 8; w 4 5 [48] 7 false 16;
     w 5 6 [48] 7 false 16; w 6 7 [48] 7 false 16; w 7 8 [12450] 4 false 128; w 8 10 [12452; 12454] 4 true 128;
